@@ -36,6 +36,10 @@ CHECKS = {
    text="(1) Deterministic parsing: generated resolver-stress sources (2-8 functions, chains/diamonds/recursion, unused and forwarded parameters, natives, 0-4 injected independent type errors) and repository test programs are parsed under sorted, reversed and seeded-random iteration orders of every Go map in the resolver/compiler/interpreter (scratch rewrite 'maporder'); verdict, error text and position, Program.String and disassembly must be identical. (2) 2-6 Interpreters sharing one Program run as actors that yield at every VM step (hook H1) under a seeded scheduler tape; each must equal the sequential result, and a deep structural hash of the Program must not change at any switch. (3) Secondary layer: the same executions with real goroutines in a -race build. Sampling, not proof.",
    note="Interleaving granularity is one VM instruction; intra-instruction races are left to the -race layer, which is sound but not seed-replayable. The maporder rewrite is trusted to preserve Go semantics (its self-check runs the unedited test suite on the rewritten copy in the thorough tier).",
    tech="deterministic simulation: seeded map-iteration orders and VM-step scheduler; Program hash invariant; race detector as secondary monitor"),
+ "C15": dict(cat="fault_enumeration", ref="5.7",
+   text="Program archetypes with a native tick() in their hot paths (loops, recursion to depth 900, for-in over up to 10^5 elements with/without body and nested in calls, per-record and pattern-only rules, range patterns, functions called from patterns, END loops, output to stdout+file+command, getline loops, loops around system()/cmd|getline, and system/close/getline blocked on a hanging stub child) run under ExecuteContext with a simulated context that the simulator closes at a chosen VM step (hook H1), at a script-chosen tick, before the start, never, or while the interpreter waits for a child; 'enum' scenarios close it at every step of a short run. Oracles: never-cancelled == Execute; return within 2000 VM steps of the close; returned error is the context's error; a blocked wait ends without the simulator releasing the child and the child is dead; everything printed to stdout/files by iterations completed before the close is present. Sampling plus enumeration of cancel points of short runs.",
+   note="Bound B_steps=2000 is stated, not read from the code. Output to a command is only required to be a well-formed prefix after a cancellation, because exec.CommandContext may kill the command. Real-time grace of 20 s only for 'child was never interrupted'.",
+   tech="deterministic simulation: step-exact cancellation via VM-step hook, stub children paced over a control socket"),
 }
 ORDER = ["C07","C08","C11","C12","C13","C14","C15","C19"]
 checks = []
